@@ -18,6 +18,12 @@ A scenario is a JSON-able dict:
   gran      "locks" | "attrs"
   poll      False: wasyncore.poll (select order), True: wasyncore.poll2
   client_close  the client closes after its last send (half of the runs do not)
+  real_trigger  True: the REAL waitress.trigger.trigger over harness/fake_pipe.FakeOS instead of the
+            flag-only FakeTrigger (os.read / os.write and the trigger's lock are scheduling points)
+  conn2     a second connection on the same map and dispatcher: {"reqs", "segs", "client_close"};
+            requests may carry "wait_for": path (the application blocks until that request's
+            application has been entered).  Runs with conn2 are monitored, not aligned with the
+            single-channel model.
 """
 import ast
 import errno
@@ -26,7 +32,10 @@ import json
 import logging
 import os
 
-from harness.chan_world import World, ScriptSock, CHAN_FD
+from harness.chan_world import World, ScriptSock, FakeSelect, FakeServer, CHAN_FD, TRIG_FD
+from harness.fake_pipe import FakeOS
+from harness.fake_threading import patched
+from harness.sched import Op, ThreadKilled
 from harness.sched import RandomPolicy, PCTPolicy, explore
 
 logging.disable(logging.CRITICAL)
@@ -94,6 +103,14 @@ def make_app(reqs, holder=None):
     def app(environ, start_response):
         r = table.get(environ.get("PATH_INFO"))
         chunks = [b"x" * n for n in (r["chunks"] if r else [1])]
+        if holder:
+            w0 = holder[0]
+            w0.app_called.add(environ.get("PATH_INFO"))
+            if r is not None and r.get("wait_for"):
+                # a request that depends on another one (long poll woken by a second request):
+                # blocks inside the application until that request's application has been entered
+                other = r["wait_for"]
+                w0.sched.yield_(Op("app:wait_event", other, enabled=lambda: other in w0.app_called))
         if r is not None and r.get("raise") == "before":
             raise ValueError("app")
         hdrs = []
@@ -142,6 +159,63 @@ class NotingSock(ScriptSock):
         return d
 
 
+class _Pulled:
+    def __init__(self, v):
+        self.pulled = v
+
+
+class ConnSock(NotingSock):
+    """The socket of a second connection: its own descriptor and its own wire."""
+    FD = 9
+
+    def __init__(self, *a, **kw):
+        NotingSock.__init__(self, *a, **kw)
+        self.wire = b""
+
+    def fileno(self):
+        return self.FD
+
+    def send(self, data):
+        w = self.w
+        w.sched.yield_(Op("sock_send", len(data)))
+        self.nsend += 1
+        if self.closed:
+            raise OSError(errno.EBADF, "closed")
+        plan = self.send_plan.pop(0) if self.send_plan else None
+        if isinstance(plan, tuple) and plan[0] == "err":
+            raise OSError(plan[1], "injected")
+        if self.client_gone:
+            raise OSError(errno.EPIPE, "gone")
+        n = len(data) if plan is None else min(plan, len(data))
+        if n == 0:
+            raise OSError(errno.EWOULDBLOCK, "would block")
+        self.wire += bytes(data[:n])
+        return n
+
+
+class WakeSelect(FakeSelect):
+    """Readiness over the trigger (fake flag, or the fake pipe of the real trigger) and one or
+    two connections."""
+
+    def _ready(self, r, w_):
+        world = self.w
+        socks = {world.sock.fileno(): world.sock}
+        if world.sock2 is not None:
+            socks[world.sock2.fileno()] = world.sock2
+        rr, ww = [], []
+        for fd in r:
+            if world.fos is not None and world.fos.readable(fd):
+                rr.append(fd)
+            elif world.fos is None and fd == TRIG_FD and world.trigger.pulled:
+                rr.append(fd)
+            elif fd in socks and socks[fd].read_ready():
+                rr.append(fd)
+        for fd in w_:
+            if fd in socks and socks[fd].write_ready():
+                ww.append(fd)
+        return rr, ww
+
+
 _DISC = frozenset({errno.ECONNRESET, errno.ENOTCONN, errno.ESHUTDOWN, errno.ECONNABORTED, errno.EPIPE, errno.EBADF})
 SNAP_FIELDS = ("wc", "cwf", "conn", "total", "nreq", "ol", "rl", "closed", "pulled", "queue", "pend")
 
@@ -153,9 +227,121 @@ class WakeWorld(World):
 
     def __init__(self, *a, **kw):
         sndbuf = kw.get("sndbuf", 1 << 16)
+        self.real_trigger = bool(kw.pop("real_trigger", False))
+        self.client2_script = list(kw.pop("client2_script", None) or [])
+        send_plan2 = kw.pop("send_plan2", ())
         World.__init__(self, *a, **kw)
         self.sock = NotingSock(self, kw.get("send_plan", ()), kw.get("recv_faults"), sndbuf, kw.get("setup_faults"))
+        self.sock2 = ConnSock(self, send_plan2, None, sndbuf, None) if self.client2_script else None
+        self.channel2 = None
+        self.fos = None
+        self.app_called = set()
         self.sched.observer = self._observe
+
+    def _pulled(self):
+        if self.fos is not None:
+            return bool(self.fos.pipe_obj.buf)      # the abstraction: pulled <-> the pipe is not empty
+        return self.trigger.pulled
+
+    def _final_of(self, ch, fd):
+        g = lambda n: object.__getattribute__(ch, n)
+        return {"total_outbufs_len": g("total_outbufs_len"), "requests": len(g("requests")),
+                "will_close": g("will_close"), "close_when_flushed": g("close_when_flushed"),
+                "connected": g("connected"), "in_map": fd in self.map}
+
+    def run(self):
+        """World.run, with the options real_trigger (the real waitress.trigger.trigger over a
+        fake pipe) and a second connection on the same map / dispatcher."""
+        if not self.real_trigger and self.sock2 is None:
+            return World.run(self)
+        import waitress.channel as wchannel
+        import waitress.task as wtask
+        import waitress.wasyncore as wasyncore
+        import waitress.trigger as wtrigger
+        from waitress.adjustments import Adjustments
+        import contextlib
+        world = self
+        fsel = WakeSelect(self)
+        with contextlib.ExitStack() as stack:
+            stack.enter_context(patched(wchannel, threading=self.ft, time=self.ftime))
+            stack.enter_context(patched(wtask, threading=self.ft, time=self.ftime))
+            if self.real_trigger:
+                self.fos = FakeOS(self.sched)
+                stack.enter_context(patched(wasyncore, select=fsel, time=self.ftime, os=self.fos))
+                stack.enter_context(patched(wtrigger, threading=self.ft, os=self.fos))
+            else:
+                stack.enter_context(patched(wasyncore, select=fsel, time=self.ftime))
+            adj = Adjustments(**self.adj_kw)
+            self.adj = adj
+            dispatcher = wtask.ThreadedTaskDispatcher()
+            self.dispatcher = dispatcher
+            if self.real_trigger:
+                self.trigger = wtrigger.trigger(self.map)     # registers its read end in the map
+                self.trig_fd = self.trigger._fileno
+
+                class RealServer(FakeServer):
+                    def pull_trigger(self):                   # as BaseWSGIServer.pull_trigger
+                        self.trigger.pull_trigger()
+                self.server = RealServer(self, adj, dispatcher)
+            else:
+                self.server = FakeServer(self, adj, dispatcher)
+                self.map[TRIG_FD] = self.trigger
+                self.trig_fd = TRIG_FD
+            cls = self._make_channel_class()
+            verdict = None
+            try:
+                def boot():
+                    dispatcher.set_thread_count(self.n_workers)
+                    try:
+                        self.channel = cls(self.server, self.sock, ("127.0.0.1", 40000), adj, map=self.map)
+                        if self.sock2 is not None:
+                            self.channel2 = cls(self.server, self.sock2, ("127.0.0.1", 40001), adj, map=self.map)
+                    except OSError as e:
+                        self.sched.note("channel_init_failed", repr(e))
+                        return
+                    self.tracing = True
+                    self.sched.spawn("io", self._io_main)
+                    self.sched.spawn("client", self._client_main)
+                    if self.sock2 is not None:
+                        self.sched.spawn("client2", self._client2_main)
+                self.sched.spawn("boot", boot)
+                verdict = self.sched.run()
+                self.blocked_at_end = self.sched.blocked()
+                self.final = self.quiescent_state()
+                self.final["trigger_pulled"] = self._pulled()
+                if self.channel2 is not None:
+                    self.final2 = self._final_of(self.channel2, self.sock2.fileno())
+            finally:
+                self.tracing = False
+                self.stopping = True
+                self.sched.kill()
+                if self.real_trigger:
+                    # close the fake descriptors while the fake os is still installed, so that
+                    # file_wrapper.__del__ never reaches the real os.close
+                    try:
+                        self.trigger.close()
+                    except Exception:
+                        pass
+        self.verdict = verdict
+        return verdict
+
+    def quiescent_state(self):
+        if self.fos is None:
+            return World.quiescent_state(self)
+        real, self.trigger = self.trigger, _Pulled(self._pulled())
+        try:
+            return World.quiescent_state(self)
+        finally:
+            self.trigger = real
+
+    def _client2_main(self):
+        for step in self.client2_script:
+            if step[0] == "send":
+                self.sched.yield_(Op("client2:send", len(step[1])))
+                self.sock2.rx.append(bytes(step[1]))
+            elif step[0] == "close":
+                self.sched.yield_(Op("client2:close", None))
+                self.sock2.client_gone = True
 
     def _tname(self, lt):
         if lt is None:
@@ -175,7 +361,7 @@ class WakeWorld(World):
             pend = -1
         return (int(g("will_close")), int(g("close_when_flushed")), int(bool(g("connected"))), g("total_outbufs_len"),
                 len(g("requests")), self._tname(g("outbuf_lock").lock.owner), self._tname(g("requests_lock").owner),
-                int(closed), int(self.trigger.pulled), len(self.dispatcher.queue),
+                int(closed), int(self._pulled()), len(self.dispatcher.queue),
                 "x" if closed else ("*" if (g("outbuf_lock").lock.owner is not None or not g("connected")) else pend))
 
     def _make_channel_class(self):
@@ -231,10 +417,15 @@ def make_world(sc, schedule=(), policy=None, max_steps=6000):
     plan = [tuple(p) if isinstance(p, list) else p for p in sc.get("send_plan", [])]
     rf = {int(k): v for k, v in (sc.get("recv_faults") or {}).items()}
     holder = []
-    w = WakeWorld(make_app(sc["reqs"], holder), client_script(sc), schedule=schedule, policy=policy,
+    c2 = sc.get("conn2")
+    reqs = list(sc["reqs"]) + (list(c2["reqs"]) if c2 else [])
+    w = WakeWorld(make_app(reqs, holder), client_script(sc), schedule=schedule, policy=policy,
                   adj_kw=dict(sc.get("adj", {})), n_workers=sc.get("workers", 1), send_plan=plan,
                   recv_faults=rf, granularity=sc.get("gran", "locks"), use_poll=bool(sc.get("poll")),
-                  max_steps=max_steps, sndbuf=sc.get("sndbuf", 1 << 16))
+                  max_steps=max_steps, sndbuf=sc.get("sndbuf", 1 << 16),
+                  real_trigger=bool(sc.get("real_trigger")),
+                  client2_script=(client_script(c2) if c2 else None),
+                  send_plan2=[tuple(p) if isinstance(p, list) else p for p in (c2.get("send_plan", []) if c2 else [])])
     holder.append(w)
     return w
 
@@ -278,7 +469,14 @@ def monitor(world, sc):
     pk = parked(world) if v == "blocked" else {}
     probs = []
     if v == "blocked":
+        # the pool: a queued task must not sit there while a worker sleeps on queue_cv
+        idle = [n for n, where in pk.items() if where == "queue_cv"]
+        if f["queue"] and idle:
+            probs.append("dispatcher queue holds %d task(s) while worker(s) %s sleep on queue_cv"
+                         % (f["queue"], ",".join(sorted(idle))))
         for name, where in pk.items():
+            if where.startswith("app:wait_event"):
+                continue        # waits for another request; judged by the pool condition above
             if where.startswith("app:wait"):
                 # the application waits for its consumer: everything waitress is supposed to send
                 # (at least send_bytes pending) must be on its way
@@ -310,6 +508,16 @@ def monitor(world, sc):
     # must have been read unless the channel closed or stopped reading for a reason
     if world.sock.rx and f["in_map"] and v == "blocked":
         probs.append("client bytes unread (%d chunk(s)) while the channel is open and quiescent" % len(world.sock.rx))
+    f2 = getattr(world, "final2", None)
+    if f2 is not None:      # the second connection: the same conjuncts
+        if f2["total_outbufs_len"] and f2["in_map"]:
+            probs.append("connection 2: undelivered output: total_outbufs_len=%d" % f2["total_outbufs_len"])
+        if f2["requests"] and f2["in_map"]:
+            probs.append("connection 2: requests holds %d unserviced request(s)" % f2["requests"])
+        if (f2["will_close"] or f2["close_when_flushed"]) and f2["in_map"]:
+            probs.append("connection 2: closing but still in the map")
+        if world.sock2.rx and f2["in_map"] and v == "blocked":
+            probs.append("connection 2: client bytes unread while the channel is open and quiescent")
     return ("quiescent" if v == "blocked" else "finished"), probs
 
 
@@ -368,6 +576,8 @@ def model_tokens(world, sc):
     g = lambda n: object.__getattribute__(ch, n)
     disp = world.dispatcher
     locks = {disp.lock.name: "d", g("requests_lock").name: "r", g("outbuf_lock").lock.name: "o"}
+    if getattr(world, "fos", None) is not None:
+        locks[world.trigger.lock.name] = "t"      # the real trigger's lock
     cvs = {disp.queue_cv.name: "q", g("outbuf_lock").name: "o"}
     ev = world.sched.events
     segs = segments(sc)
@@ -441,8 +651,10 @@ def model_tokens(world, sc):
                     break
         elif kind == "select":
             lab = "Sel"
-        elif kind == "pull_trigger":
-            lab = "Pull"
+        elif kind in ("pull_trigger", "pipe_write"):
+            lab = "Pull"            # the fake flag is set / one byte is written to the real trigger's pipe
+        elif kind in ("trigger_read", "pipe_read"):
+            lab = "TrigRead"        # the trigger's handle_read (os.read drains the pipe)
         elif kind == "add_task":
             lab = "AddTask"
         elif kind == "map_del":
@@ -471,6 +683,10 @@ def model_tokens(world, sc):
             if arg == "?":
                 continue   # the operation was announced but the run ended before it was performed
             toks.append([i, t, lab, arg if arg is not None else "-", "-"])
+            if kind == "trigger_read":
+                # the FakeTrigger has no lock: the model's step for it is matched by two pseudo events
+                toks.append([i, t, "Aqt", "-", "-"])
+                toks.append([i, t, "Rlt", "-", "-"])
     # snapshots: snaps[j] is the state before the labelled operation recorded as event j
     snaps = sorted((j, v) for j, v in world.sched.snaps.items() if v is not None)
     k = 0
@@ -495,14 +711,16 @@ def model_tokens(world, sc):
 
 AUDIT_ATTRS = frozenset({"will_close", "close_when_flushed", "connected", "total_outbufs_len", "requests",
                          "request", "sent_continue", "outbufs", "current_outbuf_count",
-                         "outbuf_lock", "requests_lock", "lock", "queue_cv", "queue", "stop_count"})
+                         "outbuf_lock", "requests_lock", "lock", "queue_cv", "queue", "stop_count",
+                         "thunks", "trigger", "_fds", "_closed", "fd"})
 AUDIT_CALLS = frozenset({"pull_trigger", "add_task", "notify", "notify_all", "wait", "acquire", "release", "send", "recv",
                          "handle_close", "handle_read", "handle_write", "handle_error", "send_continue", "received",
                          "_flush_some", "_flush_some_if_lockable", "_flush_exception",
                          "_flush_outbufs_below_high_watermark", "service", "close", "del_channel", "append", "pop",
                          "popleft", "readable", "writable", "handle_read_event", "handle_write_event",
                          "handle_expt_event", "select", "poll", "register", "get", "skip", "read", "write",
-                         "readwrite", "_physical_pull"})
+                         "readwrite", "_physical_pull", "_close", "pipe", "dup", "set_blocking", "set_file",
+                         "add_channel"})
 
 AUDITED = [
     ("channel.py", "HTTPChannel", m) for m in (
@@ -517,6 +735,10 @@ AUDITED = [
     ("wasyncore.py", "dispatcher", "close"), ("wasyncore.py", "dispatcher", "handle_read_event"),
     ("wasyncore.py", "dispatcher", "handle_write_event"),
     ("trigger.py", "_triggerbase", "pull_trigger"), ("trigger.py", "_triggerbase", "handle_read"),
+    ("trigger.py", "_triggerbase", "__init__"), ("trigger.py", "_triggerbase", "close"),
+    ("trigger.py", "trigger", "__init__"), ("trigger.py", "trigger", "_physical_pull"), ("trigger.py", "trigger", "_close"),
+    ("wasyncore.py", "file_wrapper", "recv"), ("wasyncore.py", "file_wrapper", "send"),
+    ("wasyncore.py", "file_dispatcher", "__init__"), ("wasyncore.py", "file_dispatcher", "set_file"),
 ]
 
 
@@ -720,7 +942,8 @@ def shape_signatures(src_dir):
         tree = trees[fname]
         body = tree.body
         if cls is not None:
-            body = next((n.body for n in tree.body if isinstance(n, ast.ClassDef) and n.name == cls), [])
+            # classes may be nested under `if os.name == "posix":` -- the first one in source order
+            body = next((n.body for n in ast.walk(tree) if isinstance(n, ast.ClassDef) and n.name == cls), [])
         fn = next((n for n in body if isinstance(n, ast.FunctionDef) and n.name == meth), None)
         key = "%s:%s.%s" % (fname, cls or "", meth)
         if fn is None:
@@ -884,12 +1107,40 @@ EXPECTED_SHAPE = {
         '{ if { return } if not R:connected { if { } } m:handle_write call:handle_write() }'
     ),
     'trigger.py:_triggerbase.pull_trigger': (
-        '{ if v:thunk { R:lock with { m:append v:thunk call:append() } } m:_physical_pull call:_physical_pull'
-        '() }'
+        '{ if v:thunk { R:lock with { R:thunks m:append v:thunk call:append() } } m:_physical_pull call:_phys'
+        'ical_pull() }'
     ),
     'trigger.py:_triggerbase.handle_read': (
-        '{ try { m:recv call:recv() } except:OSError { return } R:lock with { for { try { v:v1 } except:* { v'
-        ':wasyncore v:v3 v:v4 v:v5 } } } }'
+        '{ try { m:recv call:recv() } except:OSError { return } R:lock with { for R:thunks { try { v:v1 } exc'
+        'ept:* { v:wasyncore v:v3 v:v4 v:v5 } } W:thunks } }'
+    ),
+    'trigger.py:_triggerbase.__init__': (
+        '{ W:_closed v:threading W:lock W:thunks }'
+    ),
+    'trigger.py:_triggerbase.close': (
+        '{ if not R:_closed { W:_closed m:del_channel call:del_channel() m:_close call:_close() } }'
+    ),
+    'trigger.py:trigger.__init__': (
+        '{ v:_triggerbase v:os m:pipe call:pipe() W:trigger W:_fds v:wasyncore v:v1 v:map }'
+    ),
+    'trigger.py:trigger._physical_pull': (
+        '{ v:os m:write R:trigger call:write() }'
+    ),
+    'trigger.py:trigger._close': (
+        '{ for R:_fds { v:os m:close v:v1 call:close() } W:_fds v:wasyncore m:close call:close() }'
+    ),
+    'wasyncore.py:file_wrapper.recv': (
+        '{ v:os m:read R:fd v:args call:read() return }'
+    ),
+    'wasyncore.py:file_wrapper.send': (
+        '{ v:os m:write R:fd v:args call:write() return }'
+    ),
+    'wasyncore.py:file_dispatcher.__init__': (
+        '{ v:dispatcher v:map W:connected try { v:fd } except:AttributeError { } m:set_file v:fd call:set_fil'
+        'e() v:os m:set_blocking v:fd call:set_blocking() }'
+    ),
+    'wasyncore.py:file_dispatcher.set_file': (
+        '{ v:file_wrapper v:fd m:add_channel call:add_channel() }'
     ),
 }
 
@@ -937,9 +1188,31 @@ def gen_scenario(rng, faults=True, expect=True, hw_choices=(1, 60, 120, 250, 167
                     "channel_request_lookahead": rng.choice([0, 0, 1, 2])},
             "sndbuf": rng.choice([30, 100, 65536]), "send_plan": plan, "workers": rng.choice([1, 2, 3]),
             "gran": rng.choice(["locks", "attrs"]), "poll": rng.random() < 0.5,
-            "client_close": rng.random() < 0.3,
+            "client_close": rng.random() < 0.3, "real_trigger": rng.random() < 0.5,
             "recv_faults": ({str(rng.choice([0, 1, 2])): rng.choice([errno.ECONNRESET, errno.EIO])}
                             if faults and rng.random() < 0.08 else {})}
+
+
+def gen_two_conn(rng):
+    """Two connections on one socket map, one I/O loop and one worker pool (2-3 workers): both
+    submit tasks; in half of the scenarios a request of connection 1 waits (inside the
+    application) for a request of connection 2 to be entered, so that a task left in the queue
+    while a worker sleeps shows up as a quiescent state."""
+    def reqs(prefix, n):
+        return [{"path": "/%s%d" % (prefix, i), "chunks": [rng.choice([1, 40, 200])], "cl": True,
+                 "close": False, "v": "1.1", "expect": False, "iter": rng.random() < 0.5} for i in range(n)]
+    r1 = reqs("r", rng.choice([1, 1, 2]))
+    r2 = reqs("s", rng.choice([1, 1, 2]))
+    if rng.random() < 0.5:
+        r1[0]["wait_for"] = r2[-1]["path"]
+    return {"reqs": r1, "segs": rng.choice(["one", "per_part"]),
+            "conn2": {"reqs": r2, "segs": rng.choice(["one", "per_part"]), "client_close": rng.random() < 0.2,
+                      "send_plan": [rng.choice([None, 20, 0]) for _ in range(rng.choice([0, 2]))]},
+            "adj": {"send_bytes": 1, "outbuf_high_watermark": rng.choice([120, 16777216]),
+                    "channel_request_lookahead": rng.choice([0, 1])},
+            "sndbuf": 65536, "send_plan": [rng.choice([None, 20, 0]) for _ in range(rng.choice([0, 2]))],
+            "workers": rng.choice([2, 2, 3]), "gran": "locks", "poll": rng.random() < 0.5,
+            "client_close": rng.random() < 0.2, "real_trigger": rng.random() < 0.5, "recv_faults": {}}
 
 
 def gen_policy(rng):
@@ -969,6 +1242,21 @@ def tiny_scenarios():
                         segs="one", workers=2,
                         adj={"send_bytes": 1, "outbuf_high_watermark": 16777216, "channel_request_lookahead": 1},
                         send_plan=[], poll=poll))
+    # the real trigger (pipe) and two connections sharing the pool
+    out.append(dict(base, reqs=[{"path": "/a", "chunks": [200], "cl": True}], segs="one", real_trigger=True,
+                    adj={"send_bytes": 1, "outbuf_high_watermark": 16777216, "channel_request_lookahead": 0},
+                    send_plan=[None, 90, 0], poll=False))
+    # three requests sent one after the other over the real trigger: the wake-ups at the end of
+    # each service() matter for the next request; explored with TWO pre-emptions (a pull_trigger
+    # landing inside the trigger's handle_read needs one to get there and one to come back)
+    out.append(dict(base, reqs=[{"path": "/a", "chunks": [200], "cl": True}, {"path": "/b", "chunks": [5], "cl": True},
+                                {"path": "/c", "chunks": [5], "cl": True}], segs="per_part", real_trigger=True,
+                    adj={"send_bytes": 1, "outbuf_high_watermark": 16777216, "channel_request_lookahead": 0},
+                    send_plan=[None, 90, 0], poll=False, explore={"bound": 2, "quick": 500, "thorough": 1500}))
+    out.append(dict(base, reqs=[{"path": "/a", "chunks": [5], "cl": True, "wait_for": "/s"}], segs="one", workers=2,
+                    conn2={"reqs": [{"path": "/s", "chunks": [5], "cl": True}], "segs": "one"},
+                    adj={"send_bytes": 1, "outbuf_high_watermark": 16777216, "channel_request_lookahead": 0},
+                    send_plan=[], poll=False))
     return out
 
 
